@@ -20,7 +20,7 @@ PROPS = {
         "streams": ["engine", "origins"],
         "level_text": "Lean 4 theorems about an executable model of datalog::World: the fixpoint loop is sound and complete with respect to an inductive derivability relation (run_sound, run_complete, run_exact), insertion-order independent (run_order_independent), provenance is exactly the union of used origins plus the rule's block (applyRule_origin, combine_origin), a rule with an unbound head variable never produces a fact (unbound_head_no_facts). No bound on rules, facts, terms, origins or iterations. The model is tied to the code by running datalog::World (public API: add_fact/add_rule/run_with_limits/query_*) and the compiled model on the same generated programs with arbitrary origin and trust sets and comparing the complete (origin, fact) sets, iteration counts and query answers.",
         "level_note": "Trusted: Lean kernel (standard axioms only), harness/driver JSON glue, generator reach. Derivability is defined through one application of a rule to an arbitrary finite set of derivable pairs (applyRule), whose own behaviour is tied to Rule::apply by the stream. Expression errors and limits are separate outcomes: exactness is stated for runs that end with Ok.",
-        "rule": "engine stream: seeded programs over 7 typed predicates (arity 0-3, constants of every term type), facts with origin sets drawn from {0,1,2,3,authorizer}, rules with arbitrary trusted sets, shared variables, expressions, recursive closure rules over chains, plus limit triples at k-1/k/k+1 of the measured need; non-trivial = implementation and model both finished Ok after at least one productive iteration; distinct = distinct case JSON",
+        "rule": "origins stream: TrustedOrigins::from_scopes on generated scope lists, default origins, current block or authorizer and key -> blocks maps, compared with trustedFromScopes of the model (every case is non-trivial when it has at least one scope); engine stream: seeded programs over 7 typed predicates (arity 0-3, constants of every term type), facts with origin sets drawn from {0,1,2,3,authorizer}, rules with arbitrary trusted sets, shared variables, expressions, recursive closure rules over chains, plus limit triples at k-1/k/k+1 of the measured need; non-trivial = implementation and model both finished Ok after at least one productive iteration; distinct = distinct case JSON",
         "trusted_base": ["harness/src/s_engine.rs generator and canonicalisation (facts sorted as JSON)", "lean/Codec.lean, lean/Driver.lean JSON glue"],
         "assumptions": ["which of several expression errors is reported is order-dependent in the code; only the error class is compared", "wall-clock limit not exercised in this stream (max_time = 1h)"],
     },
@@ -29,7 +29,7 @@ PROPS = {
         "streams": ["authz", "origins"],
         "level_text": "Lean 4 theorems about an executable model of AuthorizerBuilder::build + Authorizer::authorize: the trust rule stated outright (trustedFromScopes_spec, visible_spec, defaultTrusted_spec), the three check kinds (check_one_spec, check_all_spec, check_reject_spec: reject passes only when no alternative matches), failed checks in declaration order with their index (failedChecks_spec), policies tried in order (firstPolicy_spec), accepted iff no failed check and the first matching policy is allow (decide_ok_iff, failed_check_refuses). The world the decision is taken on is the exact least fixpoint by C05's run_exact. Tie: tokens of 1-4 blocks (first/third party, scopes on blocks, rules, checks) built through the public API and authorized with generated authorizers; the complete outcome (policy index, exact failed-check list, iteration and fact counts, query/query_all answers, also after a serialization round trip and after sealing) is compared with the compiled model on every case.",
         "level_note": "Trusted: Lean kernel (standard axioms), harness generator reach, JSON glue, the interning traversal in Model/Intern (tied by the stream). Theorems about checks are stated for evaluations without expression errors (the property's quantifier); cases where an expression error and a match coexist are order-dependent in the code (C11) and are skipped by the comparator (counted in the evidence).",
-        "rule": "authz stream: corpus first, then seeded tokens with 1-4 blocks, third-party blocks signed by a pool of three keys, block/rule/check/policy scopes in {authority, previous, key}, checks of the three kinds with 1-3 alternatives, ordered allow/deny policies; non-trivial = compared case whose token has a check or a policy alternative with a non-empty body; distinct = distinct case JSON",
+        "rule": "origins stream: TrustedOrigins::from_scopes on generated scope lists, default origins, current block or authorizer and key -> blocks maps, compared with trustedFromScopes of the model (every case is non-trivial when it has at least one scope); authz stream: corpus first, then seeded tokens with 1-4 blocks, third-party blocks signed by a pool of three keys, block/rule/check/policy scopes in {authority, previous, key}, checks of the three kinds with 1-3 alternatives, ordered allow/deny policies; non-trivial = compared case whose token has a check or a policy alternative with a non-empty body; distinct = distinct case JSON",
         "trusted_base": ["harness/src/prog.rs, s_authz.rs", "lean/Codec.lean, lean/Driver.lean", "Model/Intern.lean traversal order (checked by the stream, not by a theorem)"],
         "assumptions": ["error-free programs under non-binding limits for the check theorems", "wall-clock limit not exercised (max_time = 1h)"],
     },
